@@ -23,7 +23,13 @@
 (*    signal had been dequeued just before the attach;                     *)
 (*  - PTRACE_CONT(sig) delivers sig; PTRACE_DETACH(0) discards the         *)
 (*    reported signal; SIGCONT flushes pending stop signals and ends the   *)
-(*    group stop; a stopped thread does not run and cannot exit.           *)
+(*    group stop; a stopped thread does not run and cannot exit;           *)
+(*  - a thread in vfork() sleeps in the kernel until its child execs or    *)
+(*    exits (`asleep`, ended by Wake): it takes no signal meanwhile - not  *)
+(*    the process-wide SIGSTOP, not the SIGSTOP of PTRACE_ATTACH, which    *)
+(*    stays pending - and reports nothing; when it wakes it takes part in  *)
+(*    a group stop that is in effect; PTRACE_DETACH of a tracee that is    *)
+(*    not in a ptrace stop fails with ESRCH and changes nothing.           *)
 (***************************************************************************)
 EXTENDS Naturals, Sequences, FiniteSets, TLC
 CONSTANTS T,            \* thread ids, 1 is the leader
@@ -31,16 +37,20 @@ CONSTANTS T,            \* thread ids, 1 is the leader
           MaxSend,      \* queued (realtime) signals sent per thread
           RtDecodable,  \* TRUE: the tracer can decode a realtime signal reported by waitpid and re-injects it;
                         \* FALSE: waitpid fails with EINVAL for it (nix cannot represent the signal), the thread is detached with signal 0
+          Slow,         \* subset of T \ {1}: threads that sit in vfork() when the dump starts
+          WaitGivesUp,  \* FALSE: suspend_thread waits for the attached thread's stop however long it takes; TRUE: it gives up after a while,
+                        \* "detaches" (ESRCH, taken for "already gone") and drops the thread from its list
           MayExit,      \* TRUE: non-leader threads may exit while running
           NFaultSteps   \* abstract stream steps that read the target; a hard failure may hit any of them
 
 VARIABLES st,        \* thread state: "run", "gstop" (group stop), "tstop" (ptrace stop), "dead"
           traced, pendStop, pendRt, stopsig, reported, sent, delivered, lost,
           pstopped, shStop,           \* process in group stop; process-wide SIGSTOP pending
+          asleep,                     \* thread sleeps in the kernel (vfork) and takes no signal
           pc, threads, cur, suspended, softErr, step, ran
-vars == <<st, traced, pendStop, pendRt, stopsig, reported, sent, delivered, lost, pstopped, shStop,
+vars == <<st, traced, pendStop, pendRt, stopsig, reported, sent, delivered, lost, pstopped, shStop, asleep,
           pc, threads, cur, suspended, softErr, step, ran>>
-kvars == <<st, traced, pendStop, pendRt, stopsig, reported, delivered, lost, pstopped, shStop>>
+kvars == <<st, traced, pendStop, pendRt, stopsig, reported, delivered, lost, pstopped, shStop, asleep>>
 tvars == <<pc, threads, cur, suspended, softErr, step>>
 
 Alive(t) == st[t] # "dead"
@@ -49,21 +59,23 @@ Init ==
   /\ pendStop = [t \in T |-> FALSE] /\ pendRt = [t \in T |-> 0]
   /\ stopsig = [t \in T |-> "none"] /\ reported = [t \in T |-> TRUE]
   /\ sent = [t \in T |-> 0] /\ delivered = [t \in T |-> 0] /\ lost = [t \in T |-> 0]
-  /\ pstopped = FALSE /\ shStop = FALSE
+  /\ pstopped = FALSE /\ shStop = FALSE /\ asleep = [t \in T |-> t \in Slow]
   /\ pc = "stop_process" /\ threads = <<>> /\ cur = 1 /\ suspended = FALSE /\ softErr = {} /\ step = 0
   /\ ran = [t \in T |-> FALSE]
 
 (* ------------------------------ environment ------------------------------ *)
 Send(t) == /\ Alive(t) /\ sent[t] < MaxSend
            /\ sent' = [sent EXCEPT ![t] = @ + 1] /\ pendRt' = [pendRt EXCEPT ![t] = @ + 1]
-           /\ UNCHANGED <<st, traced, pendStop, stopsig, reported, delivered, lost, pstopped, shStop, tvars, ran>>
-Exit(t) == /\ MayExit /\ t # 1 /\ st[t] = "run" /\ ~traced[t]
+           /\ UNCHANGED <<st, traced, pendStop, stopsig, reported, delivered, lost, pstopped, shStop, asleep, tvars, ran>>
+Exit(t) == /\ MayExit /\ t # 1 /\ st[t] = "run" /\ ~traced[t] /\ ~asleep[t]
            /\ st' = [st EXCEPT ![t] = "dead"]
-           /\ UNCHANGED <<traced, pendStop, pendRt, stopsig, reported, sent, delivered, lost, pstopped, shStop, tvars, ran>>
+           /\ UNCHANGED <<traced, pendStop, pendRt, stopsig, reported, sent, delivered, lost, pstopped, shStop, asleep, tvars, ran>>
+Wake(t) == /\ asleep[t] /\ asleep' = [asleep EXCEPT ![t] = FALSE]         \* the vfork child execs or exits
+           /\ UNCHANGED <<st, traced, pendStop, pendRt, stopsig, reported, sent, delivered, lost, pstopped, shStop, tvars, ran>>
 
 (* -------------------------------- kernel --------------------------------- *)
 Dequeue(t) ==
-  /\ st[t] = "run"
+  /\ st[t] = "run" /\ ~asleep[t]
   /\ \/ /\ pendStop[t] \/ (shStop /\ ~traced[t])          \* a stop signal is dequeued first
         /\ IF traced[t]
              THEN /\ pendStop[t]
@@ -71,10 +83,10 @@ Dequeue(t) ==
                   /\ reported' = [reported EXCEPT ![t] = FALSE] /\ pendStop' = [pendStop EXCEPT ![t] = FALSE]
                   /\ UNCHANGED <<pstopped, shStop>>
              ELSE /\ pstopped' = TRUE /\ shStop' = FALSE /\ pendStop' = [pendStop EXCEPT ![t] = FALSE]
-                  /\ st' = [u \in T |-> IF st[u] = "run" /\ ~traced[u] THEN "gstop" ELSE st[u]]
+                  /\ st' = [u \in T |-> IF st[u] = "run" /\ ~traced[u] /\ ~asleep[u] THEN "gstop" ELSE st[u]]
                   /\ UNCHANGED <<stopsig, reported>>
         /\ UNCHANGED <<pendRt, delivered, ran>>
-     \/ /\ ~pendStop[t] /\ ~(shStop /\ ~traced[t]) /\ pendRt[t] > 0
+     \/ /\ ~pendStop[t] /\ ~(shStop /\ ~traced[t]) /\ ~(pstopped /\ ~traced[t]) /\ pendRt[t] > 0
         /\ pendRt' = [pendRt EXCEPT ![t] = @ - 1]
         /\ IF traced[t]
              THEN /\ st' = [st EXCEPT ![t] = "tstop"] /\ stopsig' = [stopsig EXCEPT ![t] = "RT"]
@@ -82,14 +94,18 @@ Dequeue(t) ==
              ELSE /\ delivered' = [delivered EXCEPT ![t] = @ + 1] /\ ran' = [ran EXCEPT ![t] = TRUE]
                   /\ UNCHANGED <<st, stopsig, reported>>
         /\ UNCHANGED <<pendStop, pstopped, shStop>>
+     \* a thread that wakes while the group stop is in effect takes part in it
+     \/ /\ ~pendStop[t] /\ ~shStop /\ pstopped /\ ~traced[t]
+        /\ st' = [st EXCEPT ![t] = "gstop"]
+        /\ UNCHANGED <<pendStop, pendRt, stopsig, reported, delivered, ran, pstopped, shStop>>
      \* the race: the realtime signal had been dequeued just before PTRACE_ATTACH took effect, so it is reported before the attach SIGSTOP
      \/ /\ traced[t] /\ pendStop[t] /\ pendRt[t] > 0
         /\ pendRt' = [pendRt EXCEPT ![t] = @ - 1]
         /\ st' = [st EXCEPT ![t] = "tstop"] /\ stopsig' = [stopsig EXCEPT ![t] = "RT"]
         /\ reported' = [reported EXCEPT ![t] = FALSE]
         /\ UNCHANGED <<pendStop, delivered, ran, pstopped, shStop>>
-  /\ UNCHANGED <<traced, sent, lost, tvars>>
-Run(t) == /\ st[t] = "run" /\ ~ran[t] /\ ran' = [ran EXCEPT ![t] = TRUE]
+  /\ UNCHANGED <<traced, sent, lost, asleep, tvars>>
+Run(t) == /\ st[t] = "run" /\ ~asleep[t] /\ ~ran[t] /\ ran' = [ran EXCEPT ![t] = TRUE]
           /\ UNCHANGED <<kvars, sent, tvars>>
 
 (* -------------------------------- tracer --------------------------------- *)
@@ -107,7 +123,7 @@ StopProcess ==    \* kill(SIGSTOP) succeeded, or the fail point / an error
   /\ \/ shStop' = TRUE /\ UNCHANGED softErr
      \/ shStop' = shStop /\ softErr' = softErr \cup {"StopProcessFailed"}
   /\ Tr("poll")
-  /\ UNCHANGED <<st, traced, pendStop, pendRt, stopsig, reported, sent, delivered, lost, pstopped, threads, cur, suspended, step, ran>>
+  /\ UNCHANGED <<st, traced, pendStop, pendRt, stopsig, reported, sent, delivered, lost, pstopped, asleep, threads, cur, suspended, step, ran>>
 Poll ==           \* the leader is seen stopped, or the poll times out
   /\ pc = "poll"
   /\ \/ st[1] = "gstop" /\ UNCHANGED softErr
@@ -134,7 +150,14 @@ Attach ==         \* suspend_threads: next thread, or all done
                              /\ reported' = [reported EXCEPT ![t] = FALSE]
                         ELSE UNCHANGED <<st, stopsig, reported>>
                    /\ Tr("wait") /\ UNCHANGED <<threads, cur, suspended, softErr, step, ran>>
-  /\ UNCHANGED <<pendRt, sent, delivered, lost, pstopped, shStop>>
+  /\ UNCHANGED <<pendRt, sent, delivered, lost, pstopped, shStop, asleep>>
+(* the wait is given up: PTRACE_DETACH of a thread that has not stopped fails with ESRCH, which the detach helper takes for success;
+   the thread is dropped from the list (nothing will detach it later), still attached, its SIGSTOP still pending *)
+WaitGiveUp ==
+  /\ WaitGivesUp /\ pc = "wait"
+  /\ LET t == threads[cur] IN ~(st[t] = "tstop" /\ ~reported[t])
+  /\ DropCur /\ softErr' = softErr \cup {"WaitPidError"} /\ Tr("attach")
+  /\ UNCHANGED <<kvars, sent, cur, suspended, step, ran>>
 Wait ==           \* the waitpid loop of suspend_thread
   /\ pc = "wait"
   /\ LET t == threads[cur] IN
@@ -156,7 +179,7 @@ Wait ==           \* the waitpid loop of suspend_thread
             ELSE \* waitpid -> Err(EINVAL): ptrace_detach(child) (signal 0), Err(WaitPidError), thread dropped from the list
                  /\ DetachK(t) /\ DropCur /\ softErr' = softErr \cup {"WaitPidError"} /\ Tr("attach")
                  /\ UNCHANGED <<delivered, cur>>
-  /\ UNCHANGED <<pendStop, pendRt, sent, pstopped, shStop, suspended, step, ran>>
+  /\ UNCHANGED <<pendStop, pendRt, sent, pstopped, shStop, asleep, suspended, step, ran>>
 Streams ==        \* each step reads the target; it may fail hard (then the dump unwinds to Drop)
   /\ pc = "streams"
   /\ \/ /\ step < NFaultSteps /\ step' = step + 1 /\ Tr("streams") /\ UNCHANGED cur
@@ -169,7 +192,7 @@ DetachLoop(here, next) ==
   /\ IF suspended /\ cur <= Len(threads)
        THEN /\ DetachK(threads[cur]) /\ cur' = cur + 1 /\ Tr(here) /\ UNCHANGED suspended
        ELSE /\ suspended' = FALSE /\ cur' = 1 /\ Tr(next) /\ UNCHANGED <<st, traced, stopsig, reported, lost>>
-  /\ UNCHANGED <<pendStop, pendRt, sent, delivered, pstopped, shStop, threads, softErr, step, ran>>
+  /\ UNCHANGED <<pendStop, pendRt, sent, delivered, pstopped, shStop, asleep, threads, softErr, step, ran>>
 Resume == DetachLoop("resume", "softerr")
 SoftErr == pc = "softerr" /\ Tr("drop") /\ UNCHANGED <<kvars, sent, threads, cur, suspended, softErr, step, ran>>
 Drop == DetachLoop("drop", "sigcont")
@@ -177,13 +200,13 @@ SigCont ==        \* kill(SIGCONT): flushes every pending stop signal, ends the 
   /\ pc = "sigcont" /\ Tr("done")
   /\ pstopped' = FALSE /\ shStop' = FALSE /\ pendStop' = [t \in T |-> FALSE]
   /\ st' = [t \in T |-> IF st[t] = "gstop" THEN "run" ELSE st[t]]
-  /\ UNCHANGED <<traced, pendRt, stopsig, reported, sent, delivered, lost, threads, cur, suspended, softErr, step, ran>>
+  /\ UNCHANGED <<traced, pendRt, stopsig, reported, sent, delivered, lost, asleep, threads, cur, suspended, softErr, step, ran>>
 
-Tracer == StopProcess \/ Poll \/ Enumerate \/ Attach \/ Wait \/ Streams \/ Resume \/ SoftErr \/ Drop \/ SigCont
+Tracer == StopProcess \/ Poll \/ Enumerate \/ Attach \/ Wait \/ WaitGiveUp \/ Streams \/ Resume \/ SoftErr \/ Drop \/ SigCont
 Kernel == \E t \in T : Dequeue(t) \/ Run(t)
-Env    == \E t \in T : Send(t) \/ Exit(t)
+Env    == \E t \in T : Send(t) \/ Exit(t) \/ Wake(t)
 Next == Tracer \/ Kernel \/ Env
-Spec == Init /\ [][Next]_vars /\ WF_vars(Tracer) /\ \A t \in T : WF_vars(Dequeue(t))
+Spec == Init /\ [][Next]_vars /\ WF_vars(Tracer) /\ \A t \in T : WF_vars(Dequeue(t)) /\ WF_vars(Wake(t))
 
 (* ------------------------------ properties ------------------------------- *)
 Listed(t) == \E i \in 1..Len(threads) : threads[i] = t
